@@ -14,7 +14,7 @@ void __real__exit(int) __attribute__((noreturn));
 void __sanitizer_set_death_callback(void (*)(void));
 // sanitizer hits must be classifiable: distinct exit code, no leak checker (the Ledger is the leak oracle)
 __attribute__((used)) const char *__asan_default_options() {
-  return "exitcode=77:detect_leaks=0:abort_on_error=0:handle_abort=1:allocator_may_return_null=1:detect_stack_use_after_return=0:max_malloc_fill_size=0:symbolize=1:fast_unwind_on_malloc=1:malloc_context_size=2";
+  return "exitcode=77:detect_leaks=0:abort_on_error=0:handle_abort=1:allocator_may_return_null=1:detect_stack_use_after_return=0:max_malloc_fill_size=0:quarantine_size_mb=24:symbolize=1:fast_unwind_on_malloc=1:malloc_context_size=2";
 }
 __attribute__((used)) const char *__ubsan_default_options() { return "print_stacktrace=1:halt_on_error=1:exitcode=77"; }
 }
